@@ -23,6 +23,8 @@ type c12Event struct {
 	Code  uint8  `json:"code,omitempty"`
 	Sub   *uint8 `json:"sub,omitempty"`  // subcode of a received / handler NOTIFICATION (nil: 1 / 2)
 	DLen  int    `json:"dlen,omitempty"` // data octets of a received NOTIFICATION
+	// Partial: fin / rst arrive after that many octets of an incomplete message
+	Partial int `json:"partial,omitempty"`
 	State string `json:"state"`
 	Out   bool   `json:"out"`
 	Both  bool   `json:"both,omitempty"` // the other direction's connection is parked in OpenSent meanwhile
@@ -208,10 +210,20 @@ func c12Prop(t *testing.T, r *hx.Run, subs ...string) func(c c12Case) hx.Verdict
 					} else {
 						cn.RemoteSend(wire.Frame(wire.TypeUpdate, []byte{0, 0, 0, 0}), nil)
 					}
-				case "fin":
-					cn.RemoteClose()
-				case "rst":
-					cn.RemoteReset()
+				case "fin", "rst":
+					if e.Partial > 0 {
+						m := wire.Frame(wire.TypeUpdate, make([]byte, 21))
+						if state == stOpenSent {
+							m = world.RemoteOpen(p, cn, 3, 0x0a000002).Frame()
+						}
+						cn.RemoteSend(m[:min(e.Partial, len(m)-1)], nil)
+						w.Settle()
+					}
+					if e.Kind == "fin" {
+						cn.RemoteClose()
+					} else {
+						cn.RemoteReset()
+					}
 				}
 				te := now()
 				w.Settle()
@@ -362,6 +374,10 @@ func genC12(rt *rapid.T) c12Case {
 			}
 		case "silence":
 			e.State = pick(rt, "sstate", stOpenConfirm, stEstablished)
+		case "fin", "rst":
+			if rapid.IntRange(0, 1).Draw(rt, "withpartial") == 0 {
+				e.Partial = pick(rt, "partial", 1, 18, 19, 20, 30, 39)
+			}
 		}
 		e.WaitMs = pick(rt, "wait", 0, 1000, 59000, 61000, 298000, 302000, 299000, 301000, 600000, rapid.IntRange(0, 700000).Draw(rt, "waitr"))
 		for j, k := 0, rapid.IntRange(0, 3).Draw(rt, "nprobes"); j < k; j++ {
